@@ -134,6 +134,32 @@ theorem authRequest_sound (cfg : Config) (action : Str) (rq : Req) (r : Option I
         exact ⟨i, a, hc, Or.inr b⟩
       · simp at h
 
+/-! ### what a request classified as POST-policy looks like -/
+
+theorem isInfix_of_append (p q : Str) (s : Str) (h : isInfix (p ++ q) s = true) : isInfix p s = true := by
+  induction s with
+  | nil => simp [isInfix] at h ⊢; exact h.1
+  | cons c s ih =>
+    simp only [isInfix, Bool.or_eq_true] at h ⊢
+    rcases h with h | h
+    · left
+      rw [List.isPrefixOf_iff_prefix] at h ⊢
+      exact (List.prefix_append p q).trans h
+    · exact Or.inr (ih h)
+
+theorem postPolicy_type_facts (rq : Req) (h : authTypeOf rq = .postPolicy) :
+    rq.method = "POST" ∧ strContains rq.ctype "multipart/form-dat" = true := by
+  unfold authTypeOf at h
+  repeat' split at h
+  all_goals first | (simp at h) | skip
+  rename_i hp
+  simp only [isRequestPostPolicySignatureV4, Bool.and_eq_true, beq_iff_eq] at hp
+  refine ⟨hp.2, ?_⟩
+  have e : "multipart/form-data".toList = "multipart/form-dat".toList ++ ['a'] := by decide
+  unfold strContains at hp ⊢
+  rw [e] at hp
+  exact isInfix_of_append _ _ _ hp.1
+
 /-! ### IAM policy documents: strings.Split, wildcard matching, and what `GetActions` emits -/
 
 theorem someSuffix_of_suffix (f : Str → Bool) (a t : Str) (h : f t = true) : someSuffix f (a ++ t) = true := by
